@@ -5,6 +5,29 @@ use vkit::{Ctx, Rng};
 
 pub fn run(ctx: &mut Ctx) {
     let (wl, case) = ctx.replay.clone().expect("dbg needs --replay");
+    if wl == "powgrad" {
+        use clarabel::verif::PowerCone;
+        for (a, sv) in [(0.5, [1.0, 1.0, 0.5]), (0.5, [2.0, 3.0, -1.0]), (0.3, [1.0, 1.0, 0.5]), (0.7, [1.0, 1.0, 0.5]), (0.3, [1.0, 1.0, 0.05]), (0.3, [1.0, 1.0, 0.9]), (0.9, [1.0, 1.0, 0.5]), (0.1, [1.0, 1.0, 0.5])] {
+            let c = PowerCone::<f64>::new(a);
+            let g = c.verif_gradient_primal(&sv);
+            let mg: Vec<f64> = g.iter().map(|v| -v).collect();
+            let f = move |v: &[vkit::jet::Jet3]| {
+                let al = [a, 1.0 - a];
+                let mut lg = vkit::jet::Jet3::constant(0.0);
+                for i in 0..2 {
+                    lg = lg + vkit::jet::Jet3::constant(2.0 * al[i]) * (v[i] / vkit::jet::Jet3::constant(al[i])).ln();
+                }
+                let mut b = -((lg.exp() - v[2] * v[2]).ln());
+                for i in 0..2 {
+                    b = b - vkit::jet::Jet3::constant(1.0 - al[i]) * v[i].ln();
+                }
+                b
+            };
+            let back = vkit::jet::Deriv { f: &f, x: mg.clone() }.gradient();
+            println!("alpha {a} s {sv:?} g {g:?} grad f*(-g) {back:?}  (want {:?})", sv.iter().map(|v| -v).collect::<Vec<_>>());
+        }
+        return;
+    }
     let (p, st) = match wl.as_str() {
         "C06" => {
             let mut rng = Rng::for_case(ctx.seed, "C06/family_G", case);
